@@ -51,3 +51,33 @@ Fixpoint xbatch_items (tol : Q) (logm : bool) (fm : Q) (xs ws : list Q) (its : l
 Definition xcheck_batch (tol : Q) (c : xbatch) : bool * Z :=
   let xs := xb_xs c in
   xbatch_items tol (xb_log c) (xb_fm c) xs (map (lag0_weight xs) xs) (xb_items c) 0%Z None.
+
+(** ** the closed formulas called directly (Numerics.linear_extrap ... quintic_extrap): no logarithm, no fallback.
+    Model value: [extrap_entry_w] on the weights of the node list, which is [extrap_entry] (Proofs/ExtrapAll.v
+    [extrap_entry_w_eq], Props/C07.v [C07_direct_check_is_the_model]); [xb_log] and [xb_fm] of the batch are not used. *)
+Definition xdirect_item_check (tol : Q) (xs ws : list Q) (it : list Q * Q) : bool * Z :=
+  let ys := fst it in let impl := snd it in
+  match extrap_entry_w xs ws ys with
+  | None => (false, 0%Z)
+  | Some m => let d := Qabs (Qred (m - impl)) in
+              let s0 := fold_right Qplus 0 (map (fun p => Qabs (fst p * snd p)) (combine ws ys)) in
+              let s := s0 + Qabs impl in
+              let s := if Qle_bool s 0 then 1 else s in
+              (Qle_bool d (tol * s), Qlog2 (Qred (d / s)))
+  end.
+
+Fixpoint xdirect_items (tol : Q) (xs ws : list Q) (its : list (list Q * Q)) (i : Z) (worst : option Z) : bool * Z :=
+  match its with
+  | [] => (true, match worst with Some w => w | None => (-1074)%Z end)
+  | it :: t => let r := xdirect_item_check tol xs ws it in
+               if fst r then xdirect_items tol xs ws t (i + 1)%Z
+                               (Some (match worst with Some w => Z.max w (snd r) | None => snd r end))
+               else (false, i)
+  end.
+
+Definition xcheck_direct_batch (tol : Q) (c : xbatch) : bool * Z :=
+  let xs := xb_xs c in
+  xdirect_items tol xs (map (lag0_weight xs) xs) (xb_items c) 0%Z None.
+
+(** typed node lists of the generated cases: [XInt z] for a spacing the caller wrote as an integer, [XNum q] for a float *)
+Definition xnodes (vs : list (@xval Q)) : list Q := map xnum vs.
